@@ -142,7 +142,7 @@ def run(chk):
                     npaths += 1
                     tag = f"C19{cfg}.path{k}"
                     if pr.exc is not None:
-                        chk.fail(f"{tag}.no_exception", f"{type(pr.exc).__name__}: {pr.exc}", fn=fn, replay=rp)
+                        chk.raised(f"{tag}.no_exception", pr.exc, fn=fn, replay=rp)
                         continue
                     at, p, m = pr.value
                     hyp = req + pr.pc
